@@ -92,14 +92,53 @@ def main_explore(pid, tier, seed, m, mutation_only=False, extra_oracle=None):
                 if len(seen) > 1:
                     stats["problems"].append({"what": ["an introspection request is answered differently under different concurrency settings"], "query": iq,
                                               "answers": [{"configs": v_, "response": json.loads(k_)} for k_, v_ in list(seen.items())[:3]], "sdl": print_sdl(mdl)})
+        # targeted: a field whose ARGUMENT COERCION fails at execution time (null for `by: Int! = 2` through a nullable
+        # variable), selected below a list: it fails once per item, concurrently or one by one depending on the settings
+        targeted = []
+        if not mutation_only:
+            from gen import base as _b, is_nn as _nn
+            def has_scaled(tn):
+                td = sg.tdef(tn); return bool(td) and td["kind"] == "object" and any(f["name"] == "scaled" for f in td["fields"])
+            def okf(f): return not any(_nn(a["type"]) and not a.get("default") for a in f["args"])
+            def inner(tn):
+                """selection text on composite type tn that reaches `scaled(by: $b)` on some object type, or None"""
+                td = sg.tdef(tn)
+                if td["kind"] == "object": return "__typename scaled(by: $b) again: scaled" if has_scaled(tn) else None
+                hit = [o for o in sg.possible(tn) if has_scaled(o)]
+                return f"__typename ... on {hit[0]} {{ scaled(by: $b) }}" if hit else None
+            paths = []
+            for f in sg.query["fields"]:
+                tb = _b(f["type"])
+                if tb in sg.leaf_names or not okf(f): continue
+                l1 = "l" in json.dumps(f["type"])
+                if l1 and inner(tb): paths.append(f"{f['name']} {{ {inner(tb)} }}")
+                td = sg.tdef(tb)
+                for o in ([tb] if td["kind"] == "object" else sg.possible(tb)):
+                    for g in sg.tdef(o)["fields"]:
+                        gb = _b(g["type"])
+                        if gb in sg.leaf_names or not okf(g): continue
+                        if (l1 or "l" in json.dumps(g["type"])) and inner(gb):
+                            sel = f"{g['name']} {{ {inner(gb)} }}"
+                            paths.append(f"{f['name']} {{ " + (sel if td["kind"] == "object" else f"... on {o} {{ {sel} }}") + " }")
+            for ptxt in rng.sample(paths, min(2, len(paths))):
+                targeted.append((f"query T($b: Int) {{ {ptxt} }}", {"b": None}, "T"))
+                targeted.append((f"query T($b: Int = 4) {{ {ptxt} }}", {"b": None}, "T"))
+        stats["targeted_argument_failure_docs"] = stats.get("targeted_argument_failure_docs", 0) + len(targeted)
         for di in range(ndocs):
             if time.time() - t0 > (110 if tier == "quick" else 1500): break
             if di < len(mixed):
                 q, variables, opn = mixed[di], None, None
+            elif di - len(mixed) < len(targeted):
+                q, variables, opn = targeted[di - len(mixed)]
             else:
                 dg = DocGen(sg, rng, op_kinds=("mutation",) if mutation_only else (("query", "mutation") if sg.mutation else ("query",)))
                 q, ops, opvars = dg.document(n_ops=1)
                 variables, _ = dg.variables_for(opvars[0], invalid=0.0)
+                # more explicit nulls for nullable variables: at a non-null argument position (legal with a default) the field
+                # fails while its arguments are coerced - once per list item, concurrently or not
+                from gen import is_nn as _is_nn
+                for vn, (vty, vd) in opvars[0].items():
+                    if not _is_nn(vty) and rng.random() < 0.25: variables[vn] = None
                 opn = ops[0][1]
             outcomes = {}
             per_cfg = {}
@@ -212,7 +251,7 @@ def finish(pid, tier, seed, b, m, stats, rule, assumptions, t0=None):
                      "tree_vs_direct_model_mismatches": stats["tree_direct_mismatch"], "first_disagreement": stats["disagreements"][:1], "schedules_run": stats["schedules"]}, no_input=True)
     cov = fw.proof_coverage(b, {
         "evaluations": stats["schedules"], "distinct_nontrivial": len(stats["nontrivial"]), "rule": rule,
-        "requests_x_configs": stats["evaluations"], "max_gates_in_one_request": stats["max_gates"],
+        "requests_x_configs": stats["evaluations"], "max_gates_in_one_request": stats["max_gates"], "targeted_argument_failure_docs": stats.get("targeted_argument_failure_docs", 0),
         "correspondence": {"disagreements": len(stats["disagreements"]), "tree_vs_direct_model_mismatches": stats["tree_direct_mismatch"]},
         "problems": len(stats["problems"]), "samples": stats["samples"] or [{"note": "none"}]})
     return v.finish("proof", cov, assumptions)
